@@ -3,10 +3,13 @@
 The workload runs against a real scratch directory (under /dev/shm when
 available).  Every *mutating* call made by the code under test goes through an
 FS object: os.open/remove/unlink/rename/replace/rmdir/mkdir/makedirs/symlink/
-chmod, and open() for writing, which returns a ProxyFile whose user-space
+link/chmod, and open() for writing, which returns a ProxyFile whose user-space
 buffer is owned by the simulator.  Reads (stat/listdir/exists/glob/open "rb")
 pass through to the real filesystem, which therefore always holds exactly what
-"reached the kernel".
+"reached the kernel".  Hard links are the real filesystem's own (os.link is an
+interposed crash point like the other calls; names of one inode share content,
+a truncating open or a write through one name shows through all of them,
+rename over one name detaches only that name, st_nlink is the real count).
 
 Crash semantics: the n-th interposed call does not happen (for a kernel write:
 only a chosen prefix of it happens), the FS enters *dead* state and raises
@@ -292,6 +295,9 @@ class OSProxy:
 
     def symlink(self, a, b, *x, **kw):
         return self._fs.call("symlink", b, os.symlink, a, b, *x, **kw)
+
+    def link(self, a, b, *x, **kw):
+        return self._fs.call("link", b, os.link, a, b, *x, **kw)
 
     def chmod(self, p, *a, **kw):
         return self._fs.call("chmod", p, os.chmod, p, *a, **kw)
